@@ -14,7 +14,8 @@ PENDING = {}
 for p in props:
     pid = p['id']
     path = os.path.join(ROOT, 'checks', f'{pid.lower()}.py')
-    if not os.path.exists(path):
+    claimed = open(os.path.join(ROOT, 'tools', 'claimed.txt')).read().split()
+    if not os.path.exists(path) or pid not in claimed:
         na.append({'property_id': pid, 'reason': PENDING.get(pid, 'check not built yet in this framework (planned; see DESIGN.md section 2)')})
         continue
     mod = importlib.import_module(f'checks.{pid.lower()}')
